@@ -118,7 +118,7 @@ def universe(repo):
         pass
     for kind, (path, _, _, _, sw) in REG.items():
         src = open(os.path.join(repo, path)).read()
-        u[kind] = sorted(set(re.findall(r'#undef ' + sw + r'(\w+)', cin)) | set(re.findall(sw + r'(\w+)', src)))
+        u[kind] = sorted(set(re.findall(r'#undef ' + sw + r'(\w+)', cin)) | set(re.findall(r'^[ \t]*#[ \t]*if(?:def)?[ \t]+(?:defined[ \t]*\(?[ \t]*)?' + sw + r'(\w+)', src, re.M)))   # real directives only (the sources carry commented-out ones)
     return u
 
 
